@@ -255,8 +255,8 @@ theorem runStmts_res {H : Text → String} {w : World} {m : MFile} {r : Revision
   unfold runStmts
   have : ¬ r.applied > m.stmts.length := by omega
   simp only [this, if_false, if_true]
-  have h3 := stmtLoop_res (sums H m.stmts) (m.stmts.drop r.applied) w { r with total := m.stmts.length }
-  rcases hL : stmtLoop (sums H m.stmts) (m.stmts.drop r.applied) w { r with total := m.stmts.length }
+  have h3 := stmtLoop_res (sums H m.stmts) (m.stmts.drop r.applied) w { r with total := m.stmts.length, hash := m.hash }
+  rcases hL : stmtLoop (sums H m.stmts) (m.stmts.drop r.applied) w { r with total := m.stmts.length, hash := m.hash }
     with ⟨w2, r2, res2⟩
   rw [hL] at h3
   simp only at h3
